@@ -40,8 +40,8 @@ CLAIMS = {
           "Coq proof of skeleton invariants (symbolic execution of each loop iteration) + bit-exact correspondence", "3/C11", True),
  "C12": C("Coq theorems: the default handler is passive unless an event is terminal; for ALL SIX solvers two passive observers (any callbacks that return Continue and leave the state alone) see literally the same solver run -- accepted steps, states, step sizes, flags, factorisations, statistics, evaluation logs, status (any number type, kernel / right-hand side / Jacobian / mass; RK23, RK4, Radau, BDF by erasure of the observer's data)." + TIE,
           "Coq proof (relational / erasure invariant over each solver loop) + bit-exact correspondence", "3/C12", False),
- "C13": C("Coq theorem: a scalar tolerance denotes the same per-component vector as the constant vector (all models read tolerances through it). Reflection/scaling/duplication equivariance are checked by paired bit-exact runs." + TIE,
-          "Coq proof (tolerance representation) + paired differential runs", "3/C13", True),
+ "C13": C("Coq theorems: a scalar tolerance denotes the same per-component vector as the constant vector (all models read tolerances through it; any number type); (reals) the weighted RMS error norm of DOPRI5 and RK23 is unchanged by duplicating the system into m identical copies; the stage recurrence shared by all explicit methods mirrors under time reflection for any tableau -- mirrored evaluation times, identical state arguments, negated slopes -- and one DOPRI5 attempt of the reflected problem has the same new state, error vector and error norm. Not theorems: whole-run equivariance (step controller, handler), power-of-two scaling, the implicit methods, bit-identity in binary64 -- all decided by paired bit-exact runs (tolerance forms incl. mixed, reflection with events, scaling, copies)." + TIE,
+          "Coq proof (tolerance representation, norm under duplication, reflection of the stage recurrence) + paired differential runs", "3/C13", True),
  "C14": C("Coq theorem (reals) about the Runge-Kutta matrix Radau effectively applies (Aeff = T Lambda^-1 TI from the regenerated constants): for every z = h*lambda <= 0 the stage equations of y'=lambda*y are uniquely solvable (Q(z) >= 1) and give ynew = R(z) y with |R(z)| <= 1, and |R(z)| <= 100/|z| + 1e-13 for |z| >= 1 -- decaying modes of any rate are damped for every step size. Not theorems: convergence of the simplified Newton iteration, BDF's stability, success/accuracy/step counts on nonlinear problems and invariants -- measured: Radau and BDF (incl. real and complex LU, Newton iterations) are replayed bit for bit on stiff linear/nonlinear problems with rates 1e2..1e10, single Radau steps are compared with the Pade value, and success, accuracy, step counts and invariants are checked on the implementation." + TIE,
           "Coq proof (stability function of the applied Radau matrix on the negative real axis) + bit-exact correspondence + stiff-problem oracles", "3/C14", True),
  "C15": C("Coq theorems: with no mass matrix the solvers read the identity whatever the mass storage; Full and Banded storage (and wider bands) holding the same entries denote the same matrix to the solvers." + TIE,
